@@ -34,3 +34,11 @@ claim('C14',
       "Bounded symbolic model checking with a fault model: winnow_process_list/dict for every combination of unfinished / finished workers with symbolic exit codes; the real mapping dispatch with one abnormal worker termination chosen symbolically (which worker, failure mode before/killed/after/raise-at-step, every completion order): the call raises iff some worker terminated abnormally.",
       "mapping stage only in the quick tier; abnormal termination is modelled at the exitcode interface of multiprocessing.Process (what the code inspects); a worker that exits 0 without doing its work is outside",
       "DESIGN.md §4 C14")
+claim('C06',
+      "Bounded symbolic model checking, relational: the real level loop is run on the row sets [A,B], [A], [B,A], [A,A,B] inside one solver context with a vote oracle that is a function of the row content; A's (and B's) records are proved identical field by field. The per-row assumption is discharged on the real kernels (nearest-neighbour search and CPM normalisation of a row are independent of the other rows, NRA), and with bootstrap factor 1 tally_votes is proved to hand all markers to the kernel for every draw of the generator.",
+      "chunk-size / worker-count independence of the dispatch is the C01/C04 dispatch harness; floats as exact reals (BLAS batch-shape rounding outside)",
+      "DESIGN.md §4 C06")
+claim('C07',
+      "Bounded symbolic model checking of the real normalisation code (scale invariance of CPM for all non-negative rows and all k>0, raw+normalise == declared log2(CPM+1), NRA with log2 uninterpreted), of the real marker-cache + assemble_query_data chain under gene permutation / extra genes (term identity of the kernel inputs), and of is_data_ge_zero on the h5 model (every pattern, symbolic signed values, dense/CSR/CSC, chunked and contiguous).",
+      "floats as exact reals; log2 uninterpreted (only congruence used); h5py model",
+      "DESIGN.md §4 C07")
